@@ -405,6 +405,19 @@ class Session:
         except Exception as e:  # noqa: BLE001
             return {"r": "exc", **_exc_info(e, self.scratch)}
 
+    def do_mapping(self, op, ns):
+        """What rules will see of a layer definition (LayeredArchitecture.layer_mapping)."""
+        if op["obj"] in ns.dead or op["obj"] not in ns:
+            return {"r": "skip"}
+        try:
+            lm = ns[op["obj"]].layer_mapping
+            layers = list(lm.all_layers)
+            return {"r": "ok", "layers": layers,
+                    "filters": {l: [[m.identifier, bool(m.identifier_is_regex)]
+                                    for m in lm.get_module_filters(l)] for l in layers}}
+        except Exception as e:  # noqa: BLE001
+            return {"r": "exc", **_exc_info(e, self.scratch)}
+
     def do_modules(self, op, evs):
         if op["ev"] not in evs:
             return {"r": "skip"}
@@ -426,6 +439,8 @@ class Session:
             return self.do_getitem(op, ns)
         if kind == "modules":
             return self.do_modules(op, evs)
+        if kind == "mapping":
+            return self.do_mapping(op, ns)
         if kind == "drop":
             return self.do_drop(op, ns, evs)
         raise ValueError(f"unknown op {kind}")
